@@ -129,8 +129,23 @@ type observation struct {
 	Full    string
 }
 
+// key identifies what the property calls "the result": two observations with the same
+// key are the same URL (the order of query pairs of different names is not part of it).
 func (o observation) key() string {
-	return o.Panic + "\x00" + o.Err + "\x00" + o.Full + "\x00" + o.Escaped + "\x00" + o.RawQ
+	cq := o.RawQ
+	if vals, err := url.ParseQuery(o.RawQ); err == nil {
+		names := make([]string, 0, len(vals))
+		for k := range vals {
+			names = append(names, k)
+		}
+		sort.Strings(names)
+		var sb strings.Builder
+		for _, k := range names {
+			fmt.Fprintf(&sb, "%q=%q;", k, vals[k])
+		}
+		cq = sb.String()
+	}
+	return strings.Join([]string{o.Panic, o.Err, o.Scheme, o.Host, o.Escaped, cq, o.Extra}, "\x00")
 }
 
 func (o observation) String() string {
